@@ -251,6 +251,8 @@ impl LangInterpreter for French {
             true_words.push(i);
         }
         for i in ambiguous {
+            #[cfg(feature = "verif-hooks")]
+            crate::verif::yield_point(4);
             if i < 2 {
                 continue;
             }
